@@ -211,6 +211,10 @@ class RawCookie:
         return self.line.encode("latin-1")
 
 
+def _escape_userinfo(text: str, more: str = "") -> str:
+    return "".join(f"%{ord(c):02X}" if c in "/?#[]" + more else c for c in text)
+
+
 class URL:
     __slots__ = ("_url", "_components")
 
@@ -344,9 +348,11 @@ class URL:
             if port is not None:
                 netloc += f":{port}"
             if username is not None:
-                userpass = username
+                # "/", "?", "#", "[" and "]" would end the authority, ":" the user
+                # name: a URL carries them percent-encoded only
+                userpass = _escape_userinfo(username, ":")
                 if password is not None:
-                    userpass += f":{password}"
+                    userpass += ":" + _escape_userinfo(password)
                 netloc = f"{userpass}@{netloc}"
 
             kwargs["netloc"] = netloc
